@@ -147,7 +147,9 @@ def run(ctx):
                 "CONNECT + TLS handshakes through 4 proxy configurations (no list, mitm-domains include/exclude, cache capacity 1 with TTL 300 ms "
                 "under 24 concurrent handshakes, validity 2 s with a second round after expiry), SNI absent/same/other case/different, client "
                 "verifies each chain independently; request: inner requests (origin-form/absolute-form x X-Forwarded-Proto values) towards origins "
-                "with valid/expired/wrong-name/untrusted certificates that also listen for plaintext on the same port, with and without --insecure. "
+                "with valid/expired/wrong-name/untrusted certificates that also listen for plaintext on the same port, with and without --insecure, "
+                "with and without Connection: Upgrade; two proxies configured with different CA files in one process (the second built after "
+                "the first) against origins of either CA. "
                 "non-trivial = split inputs net.SplitHostPort accepts + every cache/handshake/request case",
         "traces_validated_against_impl": evals,
         "model_mismatches": len(model_bad),
